@@ -14,6 +14,9 @@ for pid in ids:
     spec = importlib.util.spec_from_file_location('p' + pid, p)
     m = importlib.util.module_from_spec(spec)
     spec.loader.exec_module(m)
+    if not getattr(m, 'CLAIMED', False):
+        na.append({'property_id': pid, 'reason': pending.get(pid, 'check still under construction in this development (design: DESIGN.md section 5); not claimed until its theorems and correspondence run clean')})
+        continue
     checks.append({
         'property_id': pid,
         'quick_cmd': './check %s --tier quick' % pid,
